@@ -18,6 +18,11 @@ pub fn alt_valid(a: &AlternateLocalTimeType) -> bool {
         && -RULE_TIME_MAX <= a.dst_end_time as i32 && a.dst_end_time as i32 <= RULE_TIME_MAX
         && -UTOFF_MAX <= a.std.utoff && a.std.utoff <= UTOFF_MAX && -UTOFF_MAX <= a.dst.utoff && a.dst.utoff <= UTOFF_MAX
 }
+/// the instant of a rule day as the lookup computes it, through the method the lookup itself calls
+pub fn rule_instant(r: RuleDay, time: i32, ts: i64) -> i64 {
+    let a = AlternateLocalTimeType::new(LocalTimeType::new(0, false), r, time as u32, LocalTimeType::new(0, true), RuleDay::JulianDayWithLeap(0), 0);
+    a.local_std_end_timestamp(ts)
+}
 pub fn mk_rule_day(kind: u8, a: u32, b: u8, c: u8) -> RuleDay {
     match kind { 0 => RuleDay::JulianDayWithoutLeap(a), 1 => RuleDay::JulianDayWithLeap(a), _ => RuleDay::MonthWeekDay(a as u8, b, c) }
 }
@@ -29,7 +34,7 @@ pub fn c19_rule_day_total_holds(kind: u8, a: u32, b: u8, c: u8, time: i32, ts: i
     assume(rule_day_valid(&r));
     assume(-RULE_TIME_MAX <= time && time <= RULE_TIME_MAX);
     assume(TS_MIN <= ts && ts <= TS_MAX);
-    let _ = rule_to_local_timestamp(&r, time, ts);
+    let _ = rule_instant(r, time, ts);
 }
 pub fn c19_kf_edge_year(kind: u8, a: u32, b: u8, c: u8, time: i32, ts: i64) -> bool { ts < TS_LO_INNER || ts > TS_HI_INNER }
 /// the Unix timestamps DateTime::from_timestamp accepts
@@ -72,7 +77,7 @@ pub fn c18_rule_day_holds(kind: u8, a: u32, b: u8, c: u8, time: i32, ts: i64) {
     assume(MIN_Y < year && year < MAX_Y && year != 0); // (c18_inner_year_holds: true of every such timestamp)
     if kind == 2 { assume(lemma_rd_month(year, a)); }   // (oracle_rd_month_lemma_holds)
     assume(lemma_rd_inner(year));                       // (oracle_rd_inner_lemma_holds)
-    assert!(rule_to_local_timestamp(&r, time, ts) == (spec_rule_rd(kind, a, b, c, year) - EPOCH_DAY) * 86_400 + time as i64);
+    assert!(rule_instant(r, time, ts) == (spec_rule_rd(kind, a, b, c, year) - EPOCH_DAY) * 86_400 + time as i64);
 }
 /// the year of a timestamp between TS_LO_INNER and TS_HI_INNER is strictly inside the year range (assumed after the year is read
 /// in the rule obligations, where the timestamp -> year step is taken as uninterpreted)
@@ -188,4 +193,4 @@ pub fn ref_footer(f: &[u8], ext: bool) -> Option<(i32, Option<(i32, (u8, u32, u8
 }
 /// the rule instant as the lookup computes it (wrapper for the branch obligation, where the computation itself is taken as an
 /// uninterpreted function of its arguments: c18_rule_day_holds is the obligation about its value)
-pub fn rule_ts(r: &RuleDay, time: i32, ts: i64) -> i64 { rule_to_local_timestamp(r, time, ts) }
+pub fn rule_ts(r: RuleDay, time: i32, ts: i64) -> i64 { rule_instant(r, time, ts) }
